@@ -201,7 +201,7 @@ func parseWALPage(data []byte, baseOffset uint64, pageNum int) ([]WALRecord, err
 			break
 		}
 
-		rec, consumed := parseXLogRecord(data[pos:], baseOffset+uint64(pos))
+		rec, consumed := parseXLogRecord(data[pos:], header.PageAddr+uint64(pos))
 		if consumed == 0 {
 			break
 		}
